@@ -152,6 +152,11 @@ impl World {
         // unwrapped values are removed from `val_led` by the op that drops them
     }
 
+    /// the object takes part in no recorded adoption (as owner, as target, or through the same handle)
+    fn ledger_unlinked(&self, o: usize) -> bool {
+        !self.loopc.contains_key(&o) && !self.adopt.keys().any(|&(a, b)| a == o || b == o)
+    }
+
     fn purge_ledger(&mut self, o: usize) {
         self.adopt.retain(|&(a, b), _| a != o && b != o);
         self.loopc.remove(&o);
@@ -221,7 +226,9 @@ pub fn apply_act(a: &Act, me: Option<&Node>) {
         }
         Act::Clone(r) => with(|w| {
             if let Some(i) = w.use_root(r) {
-                let empty = HAS_HOOKS && unsafe { sh_links(Rc::as_ptr(&w.roots[i])) }.map_or(false, |t| t.is_empty());
+                // "no recorded adoption" is judged on the ledger, not on the table under test
+                let oid = w.root_ids[i];
+                let empty = HAS_HOOKS && w.ledger_unlinked(oid);
                 let (a0, t0) = (at::ALLOC_CALLS.load(Relaxed), sh_trace_calls_now());
                 let c = w.roots[i].clone();
                 let (a1, t1) = (at::ALLOC_CALLS.load(Relaxed), sh_trace_calls_now());
@@ -239,9 +246,7 @@ pub fn apply_act(a: &Act, me: Option<&Node>) {
                     let id = w.root_ids.remove(i);
                     w.dropped_targets.push(id);
                     let h = w.roots.remove(i);
-                    let empty = HAS_HOOKS
-                        && Rc::strong_count(&h) > 1
-                        && unsafe { sh_links(Rc::as_ptr(&h)) }.map_or(false, |t| t.is_empty());
+                    let empty = HAS_HOOKS && Rc::strong_count(&h) > 1 && w.ledger_unlinked(id);
                     (h, empty)
                 })
             });
